@@ -370,6 +370,95 @@ def _returns_only_structured(stmts) -> bool:
     return True
 
 
+def _lift_loop_returns(stmts: List[ast.stmt]) -> Optional[List[ast.stmt]]:
+    """`return E` inside a loop (of a helper that is expanded where its value is assigned or dropped) becomes
+    `_rv = E; _rf = True; break` (+ `if _rf: break` after enclosing inner loops) and `if _rf: return _rv` after the outermost
+    loop - the same control flow with every `return` outside the loops.  None when a return sits inside with / match."""
+    for s in stmts:
+        for n in _walk_no_nested(s):
+            if isinstance(n, ast.With) and _contains(n.body, ast.Return) and any(isinstance(a, (ast.For, ast.While)) for a in [s]):
+                pass
+    used = {n.id for s in stmts for n in ast.walk(s) if isinstance(n, ast.Name)}
+    rf, rv = "_returned", "_retval"
+    k = 0
+    while rf in used or rv in used:
+        k += 1
+        rf, rv = f"_returned{k}", f"_retval{k}"
+    changed = [False]
+
+    def in_loop(block: List[ast.stmt]) -> List[ast.stmt]:
+        out: List[ast.stmt] = []
+        for s in block:
+            if isinstance(s, ast.Return):
+                changed[0] = True
+                out.append(ast.copy_location(ast.Assign(targets=[ast.Name(id=rv, ctx=ast.Store())], value=s.value or ast.Constant(value=None)), s))
+                out.append(ast.copy_location(ast.Assign(targets=[ast.Name(id=rf, ctx=ast.Store())], value=ast.Constant(value=True)), s))
+                out.append(ast.copy_location(ast.Break(), s))
+                return out
+            if isinstance(s, (ast.For, ast.While)):
+                had = _contains(s.body, ast.Return) or _contains(s.orelse, ast.Return)
+                s.body = in_loop(s.body)
+                if _contains(s.orelse, ast.Return):
+                    return None
+                out.append(s)
+                if had:
+                    out.append(ast.copy_location(ast.If(test=ast.Name(id=rf, ctx=ast.Load()), body=[ast.Break()], orelse=[]), s))
+                continue
+            if isinstance(s, ast.If):
+                b1, b2 = in_loop(s.body), in_loop(s.orelse)
+                if b1 is None or b2 is None:
+                    return None
+                s.body, s.orelse = b1 or [ast.Pass()], b2
+                out.append(s)
+                continue
+            if isinstance(s, ast.Try):
+                parts = [in_loop(s.body), in_loop(s.orelse), in_loop(s.finalbody)] + [in_loop(h.body) for h in s.handlers]
+                if any(p_ is None for p_ in parts) or _contains(s.finalbody, ast.Return):
+                    return None
+                s.body, s.orelse, s.finalbody = parts[0] or [ast.Pass()], parts[1], parts[2]
+                for h, p_ in zip(s.handlers, parts[3:]):
+                    h.body = p_ or [ast.Pass()]
+                out.append(s)
+                continue
+            if _contains([s], ast.Return):
+                return None  # with / match: left alone
+            out.append(s)
+        return out
+
+    def top(block: List[ast.stmt]) -> Optional[List[ast.stmt]]:
+        out: List[ast.stmt] = []
+        for s in block:
+            if isinstance(s, (ast.For, ast.While)) and _contains([s], ast.Return):
+                if _contains(s.orelse, ast.Return):
+                    return None
+                nb = in_loop(s.body)
+                if nb is None:
+                    return None
+                s.body = nb
+                out.append(s)
+                out.append(ast.copy_location(ast.If(test=ast.Name(id=rf, ctx=ast.Load()), body=[ast.Return(value=ast.Name(id=rv, ctx=ast.Load()))], orelse=[]), s))
+            elif isinstance(s, ast.If) and _contains([s], ast.Return):
+                b1, b2 = top(s.body), top(s.orelse)
+                if b1 is None or b2 is None:
+                    return None
+                s.body, s.orelse = b1 or [ast.Pass()], b2
+                out.append(s)
+            else:
+                out.append(s)
+        return out
+
+    res = top(stmts)
+    if res is None or not changed[0]:
+        return None
+    init = [ast.Assign(targets=[ast.Name(id=rf, ctx=ast.Store())], value=ast.Constant(value=False)), ast.Assign(targets=[ast.Name(id=rv, ctx=ast.Store())], value=ast.Constant(value=None))]
+    for x in init:
+        ast.copy_location(x, stmts[0])
+    res = init + res
+    for x in res:
+        ast.fix_missing_locations(x)
+    return res
+
+
 def _always_returns(stmts) -> bool:
     if not stmts:
         return False
@@ -584,7 +673,9 @@ class Expander:
         if body and isinstance(body[0], ast.Expr) and isinstance(body[0].value, ast.Constant) and isinstance(body[0].value.value, str):
             body = body[1:]
         if mode != "return" and not _returns_only_structured(body):
-            return None
+            body = _lift_loop_returns(body)
+            if body is None or not _returns_only_structured(body):
+                return None
         self._n += 1
         suf = f"__{d.name.strip('_')}{self._n}"
         stored: Set[str] = set()
@@ -2670,37 +2761,88 @@ def scalar_replace_results(tree: ast.Module, modname: str) -> List[str]:
     if not vclasses:
         return []
     out: List[str] = []
+    # module-level constants of such a class (`ADMITTED = Verdict(True, None)`) are written where they are read
+    mconst: Dict[str, ast.Call] = {}
+    for st in tree.body:
+        if isinstance(st, ast.Assign) and len(st.targets) == 1 and isinstance(st.targets[0], ast.Name) and isinstance(st.value, ast.Call) and isinstance(st.value.func, ast.Name) \
+                and st.value.func.id in vclasses and all(isinstance(a, ast.Constant) for a in st.value.args) and all(isinstance(k.value, ast.Constant) for k in st.value.keywords) \
+                and f"={st.targets[0].id}" not in kf:
+            mconst[st.targets[0].id] = st.value
     for d in changed_functions(tree, modname):
-        stores: Dict[str, List[ast.Assign]] = {}
+        if mconst:
+            local_stores = {n.id for n in ast.walk(d) if isinstance(n, ast.Name) and isinstance(n.ctx, ast.Store)} | {a.arg for a in ast.walk(d) if isinstance(a, ast.arg)}
+
+            class MC(ast.NodeTransformer):
+                def visit_Name(self_, n):
+                    if isinstance(n.ctx, ast.Load) and n.id in mconst and n.id not in local_stores:
+                        return ast.copy_location(copy.deepcopy(mconst[n.id]), n)
+                    return n
+
+            d.body = [MC().visit(b) for b in d.body]
+        # candidate locals: every store is `v = K(...)`, `v = None` or `v = <other candidate>`; every load is `v.<field>` or the
+        # right-hand side of such a copy
+        assigns: Dict[str, List[ast.Assign]] = {}
         bad: Set[str] = set()
         for n in ast.walk(d):
             if isinstance(n, ast.Assign) and len(n.targets) == 1 and isinstance(n.targets[0], ast.Name):
-                v = n.value
-                if isinstance(v, ast.Call) and isinstance(v.func, ast.Name) and v.func.id in vclasses and not any(isinstance(a, ast.Starred) for a in v.args) and all(k.arg for k in v.keywords):
-                    stores.setdefault(n.targets[0].id, []).append(n)
-                else:
-                    bad.add(n.targets[0].id)
-            elif isinstance(n, (ast.AugAssign, ast.AnnAssign, ast.For, ast.NamedExpr, ast.withitem)):
-                t = getattr(n, "target", None) or getattr(n, "optional_vars", None)
-                for x in (ast.walk(t) if t is not None else []):
-                    if isinstance(x, ast.Name):
-                        bad.add(x.id)
+                assigns.setdefault(n.targets[0].id, []).append(n)
+            elif isinstance(n, (ast.AugAssign, ast.AnnAssign, ast.For, ast.NamedExpr, ast.withitem, ast.Assign)):
+                ts = n.targets if isinstance(n, ast.Assign) else [getattr(n, "target", None) or getattr(n, "optional_vars", None)]
+                for t in ts:
+                    for x in (ast.walk(t) if t is not None else []):
+                        if isinstance(x, ast.Name) and isinstance(x.ctx, (ast.Store, ast.Del)):
+                            bad.add(x.id)
             elif isinstance(n, ast.arg):
                 bad.add(n.arg)
-        cands = {k: v for k, v in stores.items() if k not in bad and len({s_.value.func.id for s_ in v}) == 1}
-        for var, sts in cands.items():
-            cls = sts[0].value.func.id
-            fields = vclasses[cls]
-            fnames = [f for f, _ in fields]
-            # every load is `var.<field>`
-            loads = [n for n in ast.walk(d) if isinstance(n, ast.Name) and n.id == var and isinstance(n.ctx, ast.Load)]
-            attr_loads = [n for n in ast.walk(d) if isinstance(n, ast.Attribute) and isinstance(n.value, ast.Name) and n.value.id == var and isinstance(n.ctx, ast.Load) and n.attr in fnames]
-            if len(loads) != len(attr_loads) or not loads:
-                continue
-            ok = True
-            repl: Dict[int, List[ast.stmt]] = {}
-            for st in sts:
-                vals: Dict[str, ast.expr] = {}
+            elif isinstance(n, ast.ExceptHandler) and n.name:
+                bad.add(n.name)
+
+        def ctor(v):
+            return isinstance(v, ast.Call) and isinstance(v.func, ast.Name) and v.func.id in vclasses and not any(isinstance(a, ast.Starred) for a in v.args) and all(k.arg for k in v.keywords)
+
+        cls_of: Dict[str, str] = {}
+        for var, sts in assigns.items():
+            ks = {s_.value.func.id for s_ in sts if ctor(s_.value)}
+            if len(ks) == 1 and var not in bad:
+                cls_of[var] = next(iter(ks))
+        changed_ = True
+        while changed_:
+            changed_ = False
+            # variables only ever copied from candidates join their class
+            for var, sts in assigns.items():
+                if var in cls_of or var in bad:
+                    continue
+                srcs = {s_.value.id for s_ in sts if isinstance(s_.value, ast.Name)}
+                ks = {cls_of[x] for x in srcs if x in cls_of}
+                if len(ks) == 1 and all(isinstance(s_.value, ast.Name) and s_.value.id in cls_of or (isinstance(s_.value, ast.Constant) and s_.value.value is None) for s_ in sts):
+                    cls_of[var] = next(iter(ks))
+                    changed_ = True
+            for var in list(cls_of):
+                fn_ = [f for f, _ in vclasses[cls_of[var]]]
+                okv = all(ctor(s_.value) and s_.value.func.id == cls_of[var] or (isinstance(s_.value, ast.Constant) and s_.value.value is None)
+                          or (isinstance(s_.value, ast.Name) and cls_of.get(s_.value.id) == cls_of[var]) for s_ in assigns[var])
+                loads = [n for n in ast.walk(d) if isinstance(n, ast.Name) and n.id == var and isinstance(n.ctx, ast.Load)]
+                fine = 0
+                for n in ast.walk(d):
+                    if isinstance(n, ast.Attribute) and isinstance(n.value, ast.Name) and n.value.id == var and isinstance(n.ctx, ast.Load) and n.attr in fn_:
+                        fine += 1
+                    elif isinstance(n, ast.Assign) and len(n.targets) == 1 and isinstance(n.targets[0], ast.Name) and isinstance(n.value, ast.Name) and n.value.id == var and n.targets[0].id in cls_of:
+                        fine += 1
+                if not okv or fine != len(loads):
+                    del cls_of[var]
+                    changed_ = True
+        if not cls_of:
+            continue
+
+        def split(st: ast.Assign) -> Optional[List[ast.stmt]]:
+            var = st.targets[0].id
+            fields = vclasses[cls_of[var]]
+            vals: Dict[str, ast.expr] = {}
+            if isinstance(st.value, ast.Constant):
+                vals = {f: ast.Constant(value=None) for f, _ in fields}
+            elif isinstance(st.value, ast.Name):
+                vals = {f: ast.Name(id=f"{st.value.id}__{f}", ctx=ast.Load()) for f, _ in fields}
+            else:
                 for (fname, dflt), a in zip(fields, st.value.args):
                     vals[fname] = a
                 for k in st.value.keywords:
@@ -2708,35 +2850,42 @@ def scalar_replace_results(tree: ast.Module, modname: str) -> List[str]:
                 for fname, dflt in fields:
                     if fname not in vals:
                         if dflt is None:
-                            ok = False
-                        else:
-                            vals[fname] = copy.deepcopy(dflt)
-                if not ok or set(vals) - set(fnames):
-                    ok = False
-                    break
-                repl[id(st)] = [ast.copy_location(ast.Assign(targets=[ast.Name(id=f"{var}__{fname}", ctx=ast.Store())], value=vals[fname]), st) for fname in fnames]
-            if not ok:
-                continue
+                            return None
+                        vals[fname] = copy.deepcopy(dflt)
+                if set(vals) - {f for f, _ in fields}:
+                    return None
+            return [ast.copy_location(ast.Assign(targets=[ast.Name(id=f"{var}__{f}", ctx=ast.Store())], value=vals[f]), st) for f, _ in fields]
 
-            class S(ast.NodeTransformer):
-                def visit_Assign(self_, n):
-                    if id(n) in repl:
-                        return repl[id(n)]
-                    self_.generic_visit(n)
-                    return n
+        plan = {}
+        okall = True
+        for var in cls_of:
+            for st in assigns[var]:
+                r = split(st)
+                if r is None:
+                    okall = False
+                plan[id(st)] = r
+        if not okall:
+            continue
 
-                def visit_Attribute(self_, n):
-                    self_.generic_visit(n)
-                    if isinstance(n.value, ast.Name) and n.value.id == var and isinstance(n.ctx, ast.Load) and n.attr in fnames:
-                        return ast.copy_location(ast.Name(id=f"{var}__{n.attr}", ctx=ast.Load()), n)
-                    return n
+        class S(ast.NodeTransformer):
+            def visit_Assign(self_, n):
+                if id(n) in plan:
+                    return plan[id(n)]
+                self_.generic_visit(n)
+                return n
 
-            nb = []
-            for b in d.body:
-                r = S().visit(b)
-                nb.extend(r if isinstance(r, list) else [r])
-            d.body = nb
-            for b in d.body:
-                ast.fix_missing_locations(b)
-            out.append(f"{d.name}: {var} ({cls}) replaced by {', '.join(var + '__' + f for f in fnames)}")
+            def visit_Attribute(self_, n):
+                self_.generic_visit(n)
+                if isinstance(n.value, ast.Name) and n.value.id in cls_of and isinstance(n.ctx, ast.Load) and n.attr in [f for f, _ in vclasses[cls_of[n.value.id]]]:
+                    return ast.copy_location(ast.Name(id=f"{n.value.id}__{n.attr}", ctx=ast.Load()), n)
+                return n
+
+        nb = []
+        for b in d.body:
+            r = S().visit(b)
+            nb.extend(r if isinstance(r, list) else [r])
+        d.body = nb
+        for b in d.body:
+            ast.fix_missing_locations(b)
+        out.append(f"{d.name}: result object(s) {sorted(cls_of)} replaced by one local per field")
     return out
